@@ -8,6 +8,8 @@ pub enum Entropy {
     /// bytes that look like the format's own structures: block types (00 01 FF FE), the magic, 0x00 / 0xFF runs as long as
     /// a block header, sign and carry boundaries (7F 80)
     Struct,
+    /// base64 text of random bytes (mail bodies, PEM, JSON with blobs): 6 bits of entropy per byte, compresses to about 3/4
+    Text,
 }
 
 impl Entropy {
@@ -15,6 +17,7 @@ impl Entropy {
         match s {
             "low" => Self::Low,
             "struct" => Self::Struct,
+            "text" => Self::Text,
             _ => Self::High,
         }
     }
@@ -37,6 +40,10 @@ pub fn cell_byte(seed: u64, file: u64, idx: u64, e: Entropy) -> u8 {
         // runs of 61 identical bytes, value depends on file and run number: compresses very well,
         // yet a shifted or foreign byte is still detected at run edges
         Entropy::Low => (mix(seed ^ mix(file ^ 0x55) ^ (idx / 61)) & 0x3) as u8 + b'a',
+        Entropy::Text => {
+            const B64: &[u8; 64] = b"ABCDEFGHIJKLMNOPQRSTUVWXYZabcdefghijklmnopqrstuvwxyz0123456789+/";
+            B64[(mix(seed ^ mix(file.wrapping_mul(0x1000_0001) ^ mix(idx))) & 63) as usize]
+        }
         Entropy::Struct => {
             const ALPHA: [u8; 12] = [0x00, 0x01, 0xFF, 0xFE, b'M', b'L', b'A', 0x80, 0x7F, 0x00, 0xFF, 0x10];
             let run = idx / 19;
